@@ -57,6 +57,23 @@ CLAIMS["C02"] = dict(engine="E1+E2", technique="CrossHair symbolic execution (z3
          "the model says (incl. a re-spelt header twin) and are judged by that implementation.",
     ref="DESIGN.md §4 C02")
 
+CLAIMS["C16"] = dict(engine="E1", technique="CrossHair symbolic execution (z3) of every consumer entry point with symbolic JSON values in place of the header and of each member, solver-chosen decoder/primitive failures",
+    text="For every JSON value kind (null, bool, int, str, lists, objects) in place of the header object and of each header / epk member, "
+         "every decoder failure class of the leaves and every primitive verdict, each path of deserialize_compact/json, rfc7797.*, "
+         "decrypt_compact/json and jwt.decode returns or raises a JoseError/ValueError. 176 conditions, each specialised to one value "
+         "kind. Counterexamples are rebuilt as real tokens (valid tag where the model needs post-authentication code) and re-run.",
+    ref="DESIGN.md §4 C16")
+CLAIMS["C15"] = dict(engine="E1", technique="CrossHair symbolic execution (z3) of the real registries and JWS/JWE producing/consuming operations against an oracle written from the statement, incl. caller-registered parameters and two-call histories",
+    text="For every registered, algorithm-specific, caller-registered and unknown parameter with a value of every JSON kind, strict checking "
+         "on and off, producing and consuming, an operation returns only if the statement's acceptance predicate holds for the header, and "
+         "valid headers with caller-registered parameters are accepted; a second call judges as in isolation.",
+    ref="DESIGN.md §4 C15")
+CLAIMS["C06"] = dict(engine="E1+E2", technique="CrossHair symbolic execution (z3) of the real operations with fake native keys (symbolic key sizes) against the statement's key-suitability table; pysym/z3 for the unsafe-secret prefix check",
+    text="For every algorithm x key kind x private/public x use x key_ops x operation inside the bounds (oct length and RSA modulus size "
+         "symbolic) an operation returns only if the statement's table allows it; every byte string starting with a PEM/OpenSSH marker "
+         "triggers the warning.",
+    ref="DESIGN.md §4 C06")
+
 PENDING = {}
 
 
